@@ -79,7 +79,10 @@ class TriggerContext:
                     new_callback = result.process(self)
                     if new_callback is not None:
                         self.callbacks.append(new_callback)
-                except Exception:
+                except BaseException:
+                    # not only Exception: the task handler refuses a snapshot with IllegalStateException (a
+                    # BaseException) once it is flushed, and the results after it (a span to close later, a log line)
+                    # belong to other actions
                     deep.logging.exception("failed to process result {}", result)
         finally:
             # the results refer back to this context (and so to the application's frame and every value we
